@@ -511,6 +511,7 @@ class RegexCompiler:
     ):
         """Compile {n,} quantifier."""
         # Emit body min_count times (each iteration starts with its captures reset)
+        self._check_repeat_count(min_count)
         capture_groups = self._find_capture_groups(body)
         for _ in range(min_count):
             self._emit_capture_reset(capture_groups)
@@ -530,6 +531,7 @@ class RegexCompiler:
         """Compile {n,m} quantifier."""
         # Emit body min_count times (required; each iteration starts with its
         # captures reset)
+        self._check_repeat_count(max_count)
         capture_groups = self._find_capture_groups(body)
         for _ in range(min_count):
             self._emit_capture_reset(capture_groups)
@@ -538,6 +540,13 @@ class RegexCompiler:
         # Emit body (max_count - min_count) times (optional)
         for _ in range(max_count - min_count):
             self._compile_optional(body, greedy)
+
+    def _check_repeat_count(self, count: int) -> None:
+        """Counted quantifiers are unrolled: a count beyond the program size
+        limit cannot fit, and for a body that emits nothing (an empty group)
+        the unrolling loop itself would spin without ever reaching the limit."""
+        if count > self.MAX_PROGRAM_SIZE:
+            raise RegExpError("Regular expression too large")
 
     def _allocate_register(self) -> int:
         """Allocate a register for position tracking."""
